@@ -69,6 +69,9 @@ func VerifC20_PodGroupStatus() {
 	}
 	// previously stored status: arbitrary
 	var prev v2alpha2.PodGroupStatus
+	if vr.AnyBool("prev.hasRequested") {
+		prev.ResourcesStatus.Requested = v1.ResourceList{v1.ResourceCPU: c20Qty("prev.requested")}
+	}
 	if vr.AnyBool("prev.hasAllocated") {
 		prev.ResourcesStatus.Allocated = v1.ResourceList{v1.ResourceCPU: c20Qty("prev.allocated")}
 	}
@@ -77,6 +80,16 @@ func VerifC20_PodGroupStatus() {
 	}
 	pg := &v2alpha2.PodGroup{ObjectMeta: metav1.ObjectMeta{Name: "pg", Namespace: "ns"}, Status: prev}
 
+	// the reconcile writes whenever the stored status differs from the true aggregate in any of the
+	// three quantities (otherwise the stored status never converges)
+	prevReq, prevAlloc, prevNP := c20Cpu(prev.ResourcesStatus.Requested), c20Cpu(prev.ResourcesStatus.Allocated), c20Cpu(prev.ResourcesStatus.AllocatedNonPreemptible)
+	wantNP := wantAlloc
+	if meta.Preemptible {
+		wantNP = 0
+	}
+	if prevReq != wantReq || prevAlloc != wantAlloc || prevNP != wantNP {
+		vr.Assert(ShouldUpdatePodGroupStatus(pg, meta), "C20.stale-status-is-rewritten")
+	}
 	st := getStatusWithMetadata(meta, pg.Status)
 	vr.Observe("requested", c20Cpu(st.ResourcesStatus.Requested))
 	vr.Observe("allocated", c20Cpu(st.ResourcesStatus.Allocated))
